@@ -395,7 +395,7 @@ func runC10(c *Ctx) {
 	defer func() { os.Stdout = realStdout; f.Close(); os.Remove(f.Name()); os.RemoveAll(dir) }()
 
 	flaky, reports, leaks := 0, 0, 0
-	for k := 0; k < c.Budget(150, 20000); k++ {
+	for k := 0; k < c.Budget(150, 3000); k++ {
 		p := c10Profile(c.R)
 		types := c10Types(p)
 		ref := Render(DumpProfile(func() *profile.Profile { return parseBack(p) }()))
@@ -405,7 +405,7 @@ func runC10(c *Ctx) {
 			cfg0 = genConfig(c.R, fields)
 		}
 		var lines []string
-		for i, n := 0, 2+c.R.Intn(c.Budget(10, 38)); i < n; i++ {
+		for i, n := 0, 2+c.R.Intn(c.Budget(10, 30)); i < n; i++ {
 			lines = append(lines, c10Line(c.R, fields, types))
 		}
 		if c.R.P(1, 10) {
@@ -524,7 +524,7 @@ func (nullUI) SetAutoComplete(func(string) string) {}
 func runC10Web(c *Ctx, fields []driver.VerifField) {
 	paths := []string{"/top", "/top", "/peek", "/flamegraph", "/flamegraph", "/", "/download", "/source"}
 	flaky := 0
-	for k := 0; k < c.Budget(60, 6000); k++ {
+	for k := 0; k < c.Budget(60, 1500); k++ {
 		p := c10Profile(c.R)
 		p0dump := Render(DumpProfile(p))
 		cfg0 := driver.VerifDefaultConfig()
